@@ -88,6 +88,17 @@ def rule_literal_termination(run, prog, rid="R-11.7"):
                             wrong = (not set(want) <= set(got)) if want else bool(got)
                             if (out.kind != "ok" or wrong) and bad is None:
                                 bad = (src, got, want, out)
+            # ... and literals cut right behind the digits of a numeric escape (the digit scan meets the end of the input)
+            for body in ("\\x4", "ab\\x41", "\\xfF", "\\7", "a\\12"):
+                for pre in ("", "L"):
+                    src = pre + quote + body
+                    n += 1
+                    sim = LexerSim(prog, src)
+                    out = sim.call(name)
+                    got = sorted(sim.error_names())
+                    want = ["UNEXPECTED_EOF_STR" if quote == '"' else "UNEXPECTED_EOF_CHR"]
+                    if (out.kind != "ok" or not set(want) <= set(got)) and bad is None:
+                        bad = (src, got, want, out)
         except Unsupported as e:
             raise Undecided(f"Lexer.{name} is outside the evaluable subset: {e}")
         run.ob(rid, f"{fn.key}::termination", bad is None,
